@@ -31,6 +31,9 @@ extern "C" void h_state(void) {
     CHECK(st.wells().size() == 2 && st.groups().size() == 1);
 }
 
+#ifndef VOIDAGE
+#define VOIDAGE 0
+#endif
 // ---- the quantity table on a two-well model
 alignas(16) static unsigned char dummy[4096];
 template <class T> static const T& none() { return *reinterpret_cast<const T*>(dummy); }
@@ -39,7 +42,7 @@ static Well mkwell(const char* name, bool producer) {
     return Well(name, "G1", 0, 0, 1, 1, 100.0, WellType(producer, producer ? Phase::OIL : Phase::WATER), Well::ProducerCMode::ORAT, Connection::Order::TRACK,
                 units, -1.0, 0.0, true, true, 0, Well::GasInflowEquation::STD);
 }
-struct Model { double o[2], w[2], g[2], ef[2]; bool shut[2]; };
+struct Model { double o[2], w[2], g[2], ro[2], rw[2], rg[2], ef[2]; bool shut[2]; };
 static quantity evalkw(const char* kw, const std::vector<const Well*>& wells, const data::Wells& xw, const std::vector<std::pair<std::string, double>>& efs, double dt, const SummaryState& st) {
     const fn_args args { wells, "G1", kw, dt, 1, 0, std::nullopt, st, xw, none<data::WellBlockAveragePressures>(), none<data::GroupAndNetworkValues>(), none<out::RegionCache>(),
                          none<EclipseGrid>(), none<Schedule>(), efs, none<Inplace>(), none<Inplace>(), none<UnitSystem>() };
@@ -49,9 +52,16 @@ static quantity evalkw(const char* kw, const std::vector<const Well*>& wells, co
 extern "C" void h_rates(void) {
     Well w1 = mkwell("W1", true), w2 = mkwell("W2", true);
     SummaryState st(std::time_t{ 0 });
-    Model m; for (int i = 0; i < 2; ++i) { m.o[i] = verif_nondet_real(); m.w[i] = verif_nondet_real(); m.g[i] = verif_nondet_real(); m.ef[i] = verif_nondet_real(); m.shut[i] = nondet_bool(); ASSUME(m.ef[i] > 0 && m.ef[i] <= 1); }
+    Model m; for (int i = 0; i < 2; ++i) { m.ef[i] = verif_nondet_real(); m.shut[i] = nondet_bool(); ASSUME(m.ef[i] > 0 && m.ef[i] <= 1);
+#if VOIDAGE          /* the voidage family in a job of its own: the sign splits of six more rates would multiply the paths */
+                                      m.o[i] = m.w[i] = m.g[i] = 0.0; m.ro[i] = verif_nondet_real(); m.rw[i] = verif_nondet_real(); m.rg[i] = verif_nondet_real();
+#else
+                                      m.o[i] = verif_nondet_real(); m.w[i] = verif_nondet_real(); m.g[i] = verif_nondet_real(); m.ro[i] = m.rw[i] = m.rg[i] = 0.0;
+#endif
+    }
     data::Wells xw;
     for (int i = 0; i < 2; ++i) { auto& x = xw[i == 0 ? "W1" : "W2"]; x.rates.set(data::Rates::opt::oil, m.o[i]); x.rates.set(data::Rates::opt::wat, m.w[i]); x.rates.set(data::Rates::opt::gas, m.g[i]);
+                                  x.rates.set(data::Rates::opt::reservoir_oil, m.ro[i]); x.rates.set(data::Rates::opt::reservoir_water, m.rw[i]); x.rates.set(data::Rates::opt::reservoir_gas, m.rg[i]);
                                   x.dynamicStatus = m.shut[i] ? Well::Status::SHUT : Well::Status::OPEN; }
     const std::vector<std::pair<std::string, double>> efs { { "W1", m.ef[0] }, { "W2", m.ef[1] } };
     const double dt = verif_nondet_real(); ASSUME(dt > 0);
@@ -59,6 +69,7 @@ extern "C" void h_rates(void) {
     // production is carried by negative rates, injection by positive ones; a shut well contributes nothing
     auto prod = [&](int i, const double* r) { return (!m.shut[i] && !(r[i] * m.ef[i] > 0.0)) ? -(r[i] * m.ef[i]) : 0.0; };
     auto inj  = [&](int i, const double* r) { return (!m.shut[i] && (r[i] * m.ef[i] > 0.0)) ? (r[i] * m.ef[i]) : 0.0; };
+#if !VOIDAGE
     CEQ(evalkw("WOPR", one, xw, efs, dt, st).value, prod(0, m.o)); CEQ(evalkw("WWPR", one, xw, efs, dt, st).value, prod(0, m.w)); CEQ(evalkw("WGPR", one, xw, efs, dt, st).value, prod(0, m.g));
     CEQ(evalkw("WWIR", one, xw, efs, dt, st).value, inj(0, m.w)); CEQ(evalkw("WGIR", one, xw, efs, dt, st).value, inj(0, m.g)); CEQ(evalkw("WOIR", one, xw, efs, dt, st).value, inj(0, m.o));
     // group / field = efficiency-factor weighted sum over the wells below
@@ -72,6 +83,20 @@ extern "C" void h_rates(void) {
     // totals: the increment handed to SummaryState is rate * step length
     CEQ(evalkw("WOPT", one, xw, efs, dt, st).value, prod(0, m.o) * dt); CEQ(evalkw("GWIT", both, xw, efs, dt, st).value, (inj(0, m.w) + inj(1, m.w)) * dt); CEQ(evalkw("FGPT", both, xw, efs, dt, st).value, (prod(0, m.g) + prod(1, m.g)) * dt);
     CEQ(evalkw("WLPT", one, xw, efs, dt, st).value, (prod(0, m.w) + prod(0, m.o)) * dt);
+#else
+    // voidage: reservoir-volume rates of the three phases, production and injection split by sign like the surface rates
+    CEQ(evalkw("WVPR", one, xw, efs, dt, st).value, prod(0, m.rw) + prod(0, m.ro) + prod(0, m.rg)); CEQ(evalkw("WVIR", one, xw, efs, dt, st).value, inj(0, m.rw) + inj(0, m.ro) + inj(0, m.rg));
+    CEQ(evalkw("WVPT", one, xw, efs, dt, st).value, (prod(0, m.rw) + prod(0, m.ro) + prod(0, m.rg)) * dt); CEQ(evalkw("WVIT", one, xw, efs, dt, st).value, (inj(0, m.rw) + inj(0, m.ro) + inj(0, m.rg)) * dt);
+    CEQ(evalkw("GVPR", both, xw, efs, dt, st).value, prod(0, m.rw) + prod(0, m.ro) + prod(0, m.rg) + prod(1, m.rw) + prod(1, m.ro) + prod(1, m.rg));
+    CEQ(evalkw("FVIR", both, xw, efs, dt, st).value, inj(0, m.rw) + inj(0, m.ro) + inj(0, m.rg) + inj(1, m.rw) + inj(1, m.ro) + inj(1, m.rg));
+#endif
+    // the unit a vector is reported in (conversion to deck units happens on output with this tag)
+    using M = UnitSystem::measure;
+    CHECK(evalkw("WOPR", one, xw, efs, dt, st).unit == M::liquid_surface_rate); CHECK(evalkw("WGPR", one, xw, efs, dt, st).unit == M::gas_surface_rate); CHECK(evalkw("WWIR", one, xw, efs, dt, st).unit == M::liquid_surface_rate);
+    CHECK(evalkw("WOPT", one, xw, efs, dt, st).unit == M::liquid_surface_volume); CHECK(evalkw("FGPT", both, xw, efs, dt, st).unit == M::gas_surface_volume); CHECK(evalkw("GWIT", both, xw, efs, dt, st).unit == M::liquid_surface_volume);
+    CHECK(evalkw("WGIT", one, xw, efs, dt, st).unit == M::gas_surface_volume); CHECK(evalkw("WLPT", one, xw, efs, dt, st).unit == M::liquid_surface_volume);
+    CHECK(evalkw("WVPR", one, xw, efs, dt, st).unit == M::rate); CHECK(evalkw("WVIT", one, xw, efs, dt, st).unit == M::volume);
+    CHECK(evalkw("WWCT", one, xw, efs, dt, st).unit == M::water_cut); CHECK(evalkw("WGOR", one, xw, efs, dt, st).unit == M::gas_oil_ratio);
 }
 
 // ---- history vectors echo the schedule's observed rates (WCONHIST / WCONINJH values held by the well), weighted and gated like the rates
@@ -107,4 +132,7 @@ extern "C" void h_history(void) {
     const double ih = shut[2] ? 0.0 : UnitSystem::newMETRIC().to_si(UnitSystem::measure::liquid_surface_rate, hinj) * ef[2];      // (the factor itself is the subject of C02)
     CEQ(evalkw("WWIRH", inj, xw, efs, dt, st).value, ih); CEQ(evalkw("FWIRH", all, xw, efs, dt, st).value, ih); CEQ(evalkw("FWITH", all, xw, efs, dt, st).value, ih * dt);
     CEQ(evalkw("WGIRH", inj, xw, efs, dt, st).value, 0.0);                                     // a water injector has no gas injection history
+    using M = UnitSystem::measure;
+    CHECK(evalkw("WOPRH", one, xw, efs, dt, st).unit == M::liquid_surface_rate); CHECK(evalkw("WGPRH", one, xw, efs, dt, st).unit == M::gas_surface_rate);
+    CHECK(evalkw("WOPTH", one, xw, efs, dt, st).unit == M::liquid_surface_volume); CHECK(evalkw("FGPTH", all, xw, efs, dt, st).unit == M::gas_surface_volume); CHECK(evalkw("FWITH", all, xw, efs, dt, st).unit == M::liquid_surface_volume);
 }
